@@ -82,7 +82,7 @@ fn exercise_value(sess: &Sess, v: &Value) -> Outcome {
         let j = sv.to_json();
         let _ = serde_json::to_string(&j);
         // reload what was emitted (functions come back through the parser)
-        let back = SerializableValue::from_json(&j);
+        let back = crate::blots::from_json(&j);
         drop(heap);
         let _ = back.to_value(&mut sess.heap.borrow_mut());
     } else {
@@ -193,14 +193,14 @@ fn bind_inputs(sess: &Sess, inputs_json: &str) {
         match &v {
             serde_json::Value::Object(obj) => {
                 for (k, val) in obj {
-                    let sv = SerializableValue::from_json(val);
+                    let sv = crate::blots::from_json(val);
                     if let Ok(x) = sv.to_value(&mut sess.heap.borrow_mut()) {
                         map.insert(k.clone(), x);
                     }
                 }
             }
             other => {
-                let sv = SerializableValue::from_json(other);
+                let sv = crate::blots::from_json(other);
                 if let Ok(x) = sv.to_value(&mut sess.heap.borrow_mut()) {
                     map.insert("value_1".to_string(), x);
                 }
